@@ -120,3 +120,38 @@ def err_family(exc):
     if isinstance(exc, MITxError):
         return 'MITx:' + type(exc).__name__
     return 'FOREIGN:' + type(exc).__name__
+
+
+def repo_tests_under_monitor(ctx, prop, kinds):
+    """Supplementary workload (thorough tier, shard 0): the repository's own suite with vf.pytest_monitor installed."""
+    import json
+    import os
+    import subprocess
+    import sys
+    import tempfile
+    from vf import core
+    if ctx.quick or ctx.shard != 0:
+        return
+    out = tempfile.NamedTemporaryFile(prefix='vfmon', suffix='.json', delete=False, dir=os.environ.get('VERIF_WORK_DIR') or os.path.join(core.VERIF_DIR, '.work'))
+    out.close()
+    env = dict(os.environ, PYTHONPATH=core.VERIF_DIR, VF_MONITOR_OUT=out.name)
+    try:
+        subprocess.run([sys.executable, '-m', 'pytest', '-q', '-p', 'no:cacheprovider', '-p', 'vf.pytest_monitor', '--timeout=900'],
+                       cwd=core.REPO, env=env, stdout=subprocess.DEVNULL, stderr=subprocess.DEVNULL, timeout=1200)
+        with open(out.name) as f:
+            data = json.load(f)
+    except Exception as exc:  # noqa
+        ctx.note('repo_tests_under_monitor', 'not run: %r' % (exc,))
+        return
+    finally:
+        try:
+            os.unlink(out.name)
+        except OSError:
+            pass
+    ctx.note('repo_tests_under_monitor', {k: v for k, v in data.items() if k != 'failures'})
+    ctx.count('repo_tests_monitored', data.get('tests', 0))
+    for k in kinds:
+        ctx.count('repo_tests_%s_events' % k, data.get({'munkres': 'munkres', 'parse': 'parse', 'draw': 'draws', 'state': 'tests'}[k], 0))
+    for f in data.get('failures', []):
+        if f['kind'] in kinds:
+            ctx.violation('%s:repo_tests:%s' % (prop, f['kind']), 'while running %s: %s' % (f.get('test'), f['msg']), f)
